@@ -47,7 +47,7 @@ def marker_lines(stdout, tag):
 _STATS = re.compile(r"(\d+) states generated, (\d+) distinct states found, (\d+) states left on queue")
 
 
-def run_tlc(module, cfg, env=None, workers=None, timeout=3600, extra=(), keep=False, simulate=None):
+def run_tlc(module, cfg, env=None, workers=None, timeout=3600, extra=(), keep=False, simulate=None, extra_modules=None):
     """Runs TLC on spec/<module>.tla with the given cfg text.
     Returns dict(stdout, states, distinct, wall_s, ok, coverage)."""
     os.makedirs(OUT, exist_ok=True)
@@ -57,6 +57,9 @@ def run_tlc(module, cfg, env=None, workers=None, timeout=3600, extra=(), keep=Fa
         for f in os.listdir(SPEC):
             if f.endswith(".tla"):
                 os.symlink(os.path.join(SPEC, f), os.path.join(work, f))
+        for name, text in (extra_modules or {}).items():      # generated wrapper modules (constants as definitions)
+            with open(os.path.join(work, name + ".tla"), "w") as fh:
+                fh.write(text)
         cfg_path = os.path.join(work, module + ".cfg")
         with open(cfg_path, "w") as fh:
             fh.write(cfg)
